@@ -44,7 +44,12 @@ func DetectDeviceConfigChanges(ctx context.Context) <-chan bool {
 			name := strings.ToLower(event.Name)
 			if strings.HasSuffix(name, ".toml") {
 				log.Info(fmt.Sprintf("config change detected: %s", event.Name), logger.Info)
-				change <- true
+				select {
+				case change <- true:
+				case <-ctx.Done():
+					// nobody takes notifications any more
+					return
+				}
 			}
 		}
 	}()
